@@ -32,12 +32,24 @@ type C02Op struct {
 	// 0 a string (through NewCell for Row.Add); 1 a tabular.Cell value made by
 	// NewCell(text); 2 a tabular.Cell copied by value out of a row the program
 	// already built (its id is then that cell's: X selects the source); 3 a
-	// *tabular.Cell pointing at such a copy
+	// *tabular.Cell pointing at such a copy; 4.. a value of some other dynamic
+	// type, containers among them (c02OtherItem: a []string, a []interface{},
+	// nil, a []tabular.Cell, ...): whatever its type, ONE argument is ONE cell
 	K  int   `json:"k,omitempty"`
 	Ks []int `json:"ks,omitempty"`
 	// N: OtherAddRow only (never in a program; derived per table): the row's
 	// position in the other table
 	N int `json:"n,omitempty"`
+	// OnAdd only (c02_more.go): an add-time callback which makes building
+	// calls itself.  W where it is registered, A what it does when it fires, F
+	// on which targets, B how many times in all, C the column (W == 3), R2 the
+	// row variable it adds to (A == 4)
+	W  int `json:"w,omitempty"`
+	A  int `json:"a,omitempty"`
+	F  int `json:"f,omitempty"`
+	B  int `json:"b,omitempty"`
+	C  int `json:"c,omitempty"`
+	R2 int `json:"r2,omitempty"`
 }
 
 type C02Spec struct {
@@ -96,7 +108,12 @@ func (s *c02Scope) valid(op C02Op) bool {
 		return s.kind[op.R] != 0
 	case "AddRow":
 		return s.kind[op.R] == 1
-	case "AddRowItems", "AddSeparator", "AddHeaders", "MutateAllRowsCopy":
+	case "AddRowItems", "AddSeparator", "AddHeaders", "MutateAllRowsCopy", "HeaderAdd":
+		return true
+	case "OnAdd":
+		if op.W == 1 || op.W == 4 || op.W == 5 {
+			return s.kind[op.R] != 0
+		}
 		return true
 	}
 	return false
@@ -326,17 +343,24 @@ func c02Random(r *RNG, maxLen, maxCells int) []C02Op {
 				}
 			}
 		}
-		// in a third of the histories some items are cells already
-		if r.Intn(3) == 0 {
+		// in a third of the histories some items are cells already, in a
+		// sixth they are of any dynamic type (containers, nil, numbers, ...)
+		if m := r.Intn(6); m <= 2 {
+			kindOf := func() int {
+				if m == 2 {
+					return 1 + r.Intn(c02MaxKind)
+				}
+				return 1 + r.Intn(3)
+			}
 			for i := range h {
 				if h[i].O == "RowAdd" && r.Pct(30) {
-					h[i].K = 1 + r.Intn(3)
+					h[i].K = kindOf()
 				}
 				if (h[i].O == "AddRowItems" || h[i].O == "AddHeaders") && len(h[i].Xs) > 0 && r.Pct(50) {
 					ks := make([]int, len(h[i].Xs))
 					for j := range ks {
-						if r.Pct(40) {
-							ks[j] = 1 + r.Intn(3)
+						if r.Pct(40) || (m == 2 && len(ks) == 1) {
+							ks[j] = kindOf()
 						}
 					}
 					h[i].Ks = ks
@@ -413,6 +437,17 @@ func encBool(v bool) byte {
 }
 
 func cellID(c *tabular.Cell) int {
+	switch v := c.Item().(type) {
+	case tabular.Cell:
+		return cellID(&v)
+	case *tabular.Cell:
+		if v != nil {
+			return cellID(v)
+		}
+	}
+	if id, ok := c02OtherItemID(c.Item()); ok {
+		return id
+	}
 	s := c.String()
 	if s == "" {
 		return 0
@@ -539,6 +574,10 @@ type c02Result struct {
 	PanicAt int      `json:"panic_at_op,omitempty"`
 	Last    *c02Dump `json:"last_dump,omitempty"`
 	Last2   *c02Dump `json:"last_dump_table2,omitempty"`
+	// programs with callbacks (c02_more.go): the building calls made from
+	// inside another one, and the whole history, one bracket per program call
+	Nested  int    `json:"nested_building_calls,omitempty"`
+	History string `json:"history_with_nested_calls,omitempty"`
 }
 
 func c02GoLine(op C02Op) string {
@@ -554,6 +593,10 @@ func c02GoLine(op C02Op) string {
 			return fmt.Sprintf("copyOfCell#%d /* a tabular.Cell copied by value from a row built so far */", x)
 		case 3:
 			return fmt.Sprintf("&copyOfCell#%d", x)
+		}
+		if k >= 4 {
+			it, _ := c02OtherItem(k, x)
+			return fmt.Sprintf("%#v", it)
 		}
 		return fmt.Sprintf("%q", c02Text(x))
 	}
@@ -596,6 +639,8 @@ func c02GoLine(op C02Op) string {
 		return fmt.Sprintf("%s.AddHeaders(%s)", t, items(op.Xs, op.Ks))
 	case "MutateAllRowsCopy":
 		return "rr := " + t + ".AllRows(); reverse(rr); if len(rr) > 0 { rr[0] = nil }; rr = rr[:0]"
+	case "OnAdd", "HeaderAdd":
+		return c02CBGoLine(op)
 	}
 	return "// ?" + op.O
 }
@@ -757,7 +802,7 @@ func c02Exec(prog []C02Op, lastOnly bool) (out c02Outcome) {
 	}
 	// the item for id x of kind k, and the id it really carries
 	mkItem := func(kind, x int) (interface{}, int) {
-		if kind >= 2 {
+		if kind == 2 || kind == 3 {
 			if cs := allCells(); len(cs) > 0 {
 				src := cs[x%len(cs)] // a copy by value, stale location and all
 				if kind == 3 {
@@ -769,6 +814,9 @@ func c02Exec(prog []C02Op, lastOnly bool) (out c02Outcome) {
 		}
 		if kind == 1 {
 			return tabular.NewCell(c02Text(x)), x
+		}
+		if kind >= 4 {
+			return c02OtherItem(kind, x)
 		}
 		return c02Text(x), x
 	}
@@ -1046,6 +1094,11 @@ func c02Tags(ops []C02Op, res c02Result) []string {
 		if op.T == 1 {
 			add("two-tables")
 		}
+		if op.O == "OnAdd" {
+			add("callback-makes-building-calls")
+			add(fmt.Sprintf("callback-registered=%d", op.W))
+			add(fmt.Sprintf("callback-does=%d", op.A))
+		}
 		for _, kind := range append([]int{op.K}, op.Ks...) {
 			switch kind {
 			case 1:
@@ -1054,6 +1107,15 @@ func c02Tags(ops []C02Op, res c02Result) []string {
 				add("item-is-a-copied-Cell")
 			case 3:
 				add("item-is-a-pointer-to-a-Cell")
+			}
+			if kind >= 4 {
+				add("item-is-of-another-dynamic-type")
+				if c02IsContainerKind(kind) {
+					add("item-is-a-container")
+					if len(op.Xs) == 1 && (op.O == "AddHeaders" || op.O == "AddRowItems") {
+						add("lone-container-argument")
+					}
+				}
 			}
 		}
 		if op.O == "AddRow" || op.O == "AppendNewRow" {
@@ -1105,6 +1167,9 @@ func c02Tags(ops []C02Op, res c02Result) []string {
 	if res.Panic != "" {
 		add("outcome=panic")
 	}
+	if res.Nested > 0 {
+		add("building-calls-made-from-inside-a-building-call")
+	}
 	return tags
 }
 
@@ -1117,6 +1182,12 @@ func c02Size(ops []C02Op) int {
 		}
 		if op.K != 0 || op.T != 0 {
 			n++
+		}
+		if op.O == "OnAdd" {
+			n += op.B
+			if op.F != 0 {
+				n++
+			}
 		}
 		for _, k := range op.Ks {
 			if k != 0 {
@@ -1147,7 +1218,7 @@ func c02DropOp(ops []C02Op, k int) []C02Op {
 	var c []C02Op
 	c = append(c, ops[:k]...)
 	for _, op := range ops[k+1:] {
-		if creates != 0 && op.R == creates && (op.O == "RowAdd" || op.O == "AddRow") {
+		if creates != 0 && op.R == creates && (op.O == "RowAdd" || op.O == "AddRow" || (op.O == "OnAdd" && (op.W == 1 || op.W == 4 || op.W == 5))) {
 			continue
 		}
 		if attachPos >= 0 && op.O == "RowAdd" && op.R == 0 {
@@ -1247,6 +1318,19 @@ func c02Shrink(ops []C02Op) [][]C02Op {
 				ks := append([]int{}, ops[k].Ks...)
 				ks[j] = 0
 				c[k].Ks = ks
+				out = append(out, c)
+			}
+		}
+		// a callback that fires fewer times, for every target
+		if ops[k].O == "OnAdd" {
+			if ops[k].B > 1 {
+				c := append([]C02Op{}, ops...)
+				c[k].B = ops[k].B / 2
+				out = append(out, c)
+			}
+			if ops[k].F != 0 {
+				c := append([]C02Op{}, ops...)
+				c[k].F = 0
 				out = append(out, c)
 			}
 		}
@@ -1559,18 +1643,24 @@ func init() {
 	register(&Prop{
 		ID:       "C02",
 		Imports:  "From Tab Require Import Run.Glue Run.C02Run.",
-		CaseType: "(list (list (op N) * bool * res (list N)))",
+		CaseType: "(list (list (op N) * sched * res (list N)))",
 		CaseFn:   "C02_case",
 		ModelFn:  "C02_model",
 		Rule: "build histories over {AddHeaders, AddRowItems, AddSeparator, AppendNewRow, NewRow, NewRowSizedFor, Row.Add on any existing row (a row variable, detached or attached, or AllRows()[i] incl. separators), " +
 			"AddRow of any still-detached row, mutate the AllRows() copy}; every op denotes a Go call and a pre-built row is attached at most once (wf_hist); item texts may repeat and may be empty; " +
-			"an item may be a string, a tabular.Cell made by NewCell, a Cell copied by value out of a row built earlier, or a *Cell to such a copy; " +
+			"an item may be a string, a tabular.Cell made by NewCell, a Cell copied by value out of a row built earlier, or a *Cell to such a copy, " +
+			"or a value of any other dynamic type - a []string, []interface{}, []tabular.Cell, []int, []byte, [][]string, typed nil slice, array, pointer to a slice, map, struct, nil, int, Stringer, error - of 0..3 elements, alone or beside other arguments (one argument is one cell); " +
+			"a program may register add-time callbacks which make building calls themselves when they fire (on the table for rows or for cells, on a pre-built row for itself or for its cells, on a column for its cells; " +
+			"the callback appends one or two cells to the row it is called for, to another row, adds a separator, a row, a pre-built row, a new header, for header rows only / body rows only / both, a bounded number of times) " +
+			"and may add cells later to a header row such a callback was handed (also one that has been replaced): every call, the program's or a callback's, is logged when it is made and that log is the history; the table is then dumped after every call of the PROGRAM (Spec/HistorySegs.v); " +
 			"a program may build two tables and pass one *Row to both tables' AddRow (each table is then judged on its own history, in which the other table's AddRow is the op OtherAddRow); " +
 			"the table is dumped after every op (after the last op only for the histories that build rows of 255..1030 cells or tables of 255..300 rows); " +
 			"a case is non-trivial when the table ends with at least one row or a header; distinct = distinct history",
 		Exhaustive: "all valid histories of exactly 3 ops over the full alphabet (cell counts 0/1/2, distinct items) and exactly 4 ops over the reduced alphabet (cell counts 0/1, no NewRowSizedFor) in the quick tier, " +
 			"4 (full) and 5 (reduced) in the thorough tier; each is dumped after every op, so all shorter histories are covered as prefixes; " +
-			"all header / row contents of length <= 3 (4 thorough) over {two texts, the empty text} in 12 shapes, all header contents of length 4 (and 5) alone, all pairs of successive headers of length <= 2",
+			"all header / row contents of length <= 3 (4 thorough) over {two texts, the empty text} in 12 shapes, all header contents of length 4 (and 5) alone, all pairs of successive headers of length <= 2; " +
+			"every item type x every container length as the lone argument / first / second of two for AddHeaders, AddRowItems and Row.Add in 6 shapes; " +
+			"for each of 40 callback registrations (where x what it does x for which targets) all continuations of exactly 2 ops (3 for the body-row 'total cell' callback; one more in the thorough tier) in which the callback can fire",
 		Gen: func(r *RNG, tier string) []json.RawMessage {
 			var out []json.RawMessage
 			add := func(h []C02Op) { out = append(out, mustJSON(C02Spec{Ops: h})) }
@@ -1579,6 +1669,8 @@ func init() {
 			thorough := tier == "thorough"
 			c02Contents(add, thorough)
 			c02Kinds(add)
+			c02OtherItems(add)
+			c02Callbacks(r, add, thorough)
 			c02TwoTables(r, add, thorough)
 			c02Sizes(r, addLast, thorough)
 			if thorough {
@@ -1613,6 +1705,9 @@ func init() {
 			if err := json.Unmarshal(spec, &cs); err != nil {
 				panic(err)
 			}
+			if c02HasCallbacks(cs.Ops) {
+				return c02RunCB(cs, spec)
+			}
 			o := c02Exec(cs.Ops, cs.LastOnly)
 			var parts []string
 			for t := 0; t < o.ntables; t++ {
@@ -1620,7 +1715,11 @@ func init() {
 				if o.panicked {
 					obs = "Panic"
 				}
-				parts = append(parts, "("+c02CoqHistory(o.hist[t])+", "+cqBool(!cs.LastOnly)+", "+obs+")")
+				sched := "Every"
+				if cs.LastOnly {
+					sched = "Last"
+				}
+				parts = append(parts, "("+c02CoqHistory(o.hist[t])+", "+sched+", "+obs+")")
 			}
 			h := cqList(parts)
 			tags := c02Tags(cs.Ops, o.res)
